@@ -220,6 +220,13 @@ func (s *zzFixtureStore) zzFixtureSum() (n int) {
 	return
 }
 `, "zzFixtureSum"},
+	{"R242", "zz_fixture_r242.go", `package bpmn
+
+func zzFixtureWithDefaults(opts ...Option) *Options {
+	opts = append(opts, WithLocator(nil))
+	return NewOptions(opts...)
+}
+`, "zzFixtureWithDefaults"},
 }
 
 // checkFixtures runs the zero-expected rules among ids on the fixture program and returns one obligation per rule.
